@@ -570,3 +570,13 @@ func hasPrefixAny(s string, ps ...string) bool {
 	}
 	return false
 }
+
+// blockInLoop: b can reach itself through one of its successors.
+func blockInLoop(b *ssa.BasicBlock) bool {
+	for _, s := range b.Succs {
+		if s == b || blockReaches(s, b) {
+			return true
+		}
+	}
+	return false
+}
